@@ -11,6 +11,6 @@ git -C "$wt" apply "$patch" || { echo "patch does not apply"; git -C /repo workt
 cd /verif
 VERIF_REPO=$wt python3 tools/check.py "$prop" --tier "$tier"; rc=$?
 git -C /repo worktree remove --force "$wt"; rm -rf "$wt"
-rm -rf /verif/.cache-*
+rm -rf "/verif/.cache-$(python3 -c "import hashlib,sys;print(hashlib.md5(sys.argv[1].encode()).hexdigest()[:8])" "$wt")"
 git -C /verif checkout -- evidence
 echo "EXIT=$rc"
